@@ -136,13 +136,15 @@ def gen_case(rng, *, full_model=True, penalties=True, weights=True, two_groups=T
             return [_iv(rng, grid, allow_rev=False, on_points=sorted(common))]
         case["penalties"].append({"source": s, "sivs": [] if rng.random() < 0.4 else piv(), "target": t, "tivs": [] if rng.random() < 0.4 else piv(),
                                   "param": rng.choice([1, 2]), "weight": rng.choice([1, 2])})
-    if weights and rng.random() < 0.2:
+    if weights and rng.random() < 0.25:
         cands = [d for d in datasets if not d["weight"]]
         if cands:
             d = rng.choice(cands)
-            giv = [] if rng.random() < 0.3 else [_iv(rng, grid, allow_rev=True, on_points=d["axis"])]
-            miv = [] if rng.random() < 0.5 else [_iv(rng, grid, allow_rev=True, on_points=list(range(len(d["data"]))))]
-            case["weights"].append({"datasets": [d["label"]], "givs": giv, "mivs": miv, "value": 2})
+            # one or two model weights on the same dataset (they multiply; each acts on its own intervals, everywhere if it has none)
+            for _k in range(rng.choice([1, 1, 2])):
+                giv = [] if rng.random() < 0.4 else [_iv(rng, grid, allow_rev=True, on_points=d["axis"])]
+                miv = [] if rng.random() < 0.5 else [_iv(rng, grid, allow_rev=True, on_points=list(range(len(d["data"]))))]
+                case["weights"].append({"datasets": [d["label"]], "givs": giv, "mivs": miv, "value": 2})
     return case
 
 
@@ -262,10 +264,10 @@ def close(f: float, q: Fraction, scale: float = 1.0) -> bool:
     return math.isfinite(f) and abs(f - qf) <= TOL * max(1.0, abs(qf), scale)
 
 
-def real_objective(case):
+def real_objective(case, free_model_params=False):
     """Penalty vector of the real code at x0 (+ optimizer), raising whatever the code raises."""
     from .lattice import build, objective
     with warnings.catch_warnings(record=True) as w:
         warnings.simplefilter("always")
-        pen, o = objective(build(case))
+        pen, o = objective(build(case, free_model_params=free_model_params))
     return pen, o, w
